@@ -569,6 +569,149 @@ def r03j(rep, F, planner_fns):
     rep.require_count('R03j', 'work-lists in pruning functions', n, 4)
 
 
+# ---------------------------------------------------------------------------------------------------------------
+MUTATORS = ('clear', 'reset', 'push_back', 'emplace_back', 'insert', 'emplace', 'add', 'resize', 'assign', 'erase', 'pop_back', 'swap')
+C = 'ompl::control::'
+G_ = 'ompl::geometric::'
+PERQUERY_EXCEPTIONS = {
+    # (planner class, member): reason read from the code
+    (C + 'LTLPlanner', 'sampler_'): 'lazily allocated sampler (if (!sampler_) ...): holds a random stream, no query data',
+    (C + 'LTLPlanner', 'controlSampler_'): 'lazily allocated control sampler: holds a random stream, no query data',
+    (C + 'Syclop', 'numMotions_'): 'zeroed by solve() under if (!graphReady_), and clear() resets graphReady_',
+    (G_ + 'AITstar', 'numProcessedEdges_'): 'statistic: read only by log messages',
+    (G_ + 'AITstar', 'numEdgeCollisionChecks_'): 'statistic: read only by log messages and a progress property',
+    (G_ + 'EITstar', 'iteration_'): 'statistic: read only by log messages and the "iterations" progress property',
+    (G_ + 'EITstar', 'numProcessedEdges_'): 'statistic: read only by log messages (clearQuery() does reset it)',
+    (G_ + 'EITstar', 'numCollisionCheckedEdges_'): 'statistic: read only by log messages and a progress property',
+    (G_ + 'BFMT', 'NNk_'): 'recomputed by every solve() from the sample count before use (under nearestK_, the flag under which it is read)',
+    (G_ + 'BFMT', 'NNr_'): 'recomputed by every solve() from the sample count before use (under !nearestK_)',
+    (G_ + 'BFMT', 'tree_'): 'solve() selects the forward tree (useFwdTree()) unconditionally before the first use',
+    (G_ + 'FMT', 'NNk_'): 'recomputed by every solve() before use (under nearestK_)',
+    (G_ + 'FMT', 'NNr_'): 'recomputed by every solve() before use (under !nearestK_)',
+    (G_ + 'FMT', 'goalState_'): 'assureGoalIsSampled() re-assigns it for every goal state the new query yields; it is read only as the target of the '
+                                'optional cost-to-go heuristic.  Observation (not claimed): with heuristics on and a query that yields no valid '
+                                'goal state it still points at a state freed by clear()',
+    (G_ + 'BITstar', 'isFinalSearchOnBatch_'): 'after clear() the queue is empty and hasExactSolution_ is false, so the first iterate() takes the '
+                                               'new-batch branch whatever this flag holds, and assigns it',
+    (G_ + 'BITstar', 'isSearchDone_'): 'read only in isSearchDone_ || queue.isEmpty(); after clear() the queue is empty, and the branch assigns it',
+    (G_ + 'BITstar', 'truncationFactor_'): 'assigned by the new-batch branch that the first iterate() after clear() always takes, before it is read',
+    (G_ + 'LazyLBTRRT', 'startMotion_'): 're-assigned by solve() from the first start state before any use: clear() resets the input-state iterator',
+    (G_ + 'LazyPRM', 'componentSize_'): 'entries are keyed by component id; clear() zeroes componentCount_, and every id is assigned (= 1 / = 0) when it is '
+                                        'handed out again, before it is read',
+    (G_ + 'LightningRetrieveRepair', 'nearestPathsChosenID_'): 'assigned by findBestPath() in every solve() that retrieved candidates, read only after it',
+    (G_ + 'LightningRetrieveRepair', 'repairPlannerDatas_'): 'debug record of the repair planner data, appended per repair and only handed out by '
+                                                             'getRepairPlannerDatas(); never read by the planner',
+    (G_ + 'RRTConnect', 'startTree_'): 'which tree grows first: either value is a valid initial side (the side-flag invariant R03k is stated relative to it)',
+    (G_ + 'RRTXstatic', 'rrg_k_'): 'recomputed by calculateRRG() in every iteration before use',
+    (G_ + 'RRTXstatic', 'rrg_r_'): 'recomputed by calculateRRG() in every iteration before use',
+    (G_ + 'SPARS', 'queryVertex_'): 'checkQueryStateInitialization() re-creates the query vertices whenever the graph is empty, which it is after clear()',
+    (G_ + 'SPARS', 'sparseQueryVertex_'): 'see queryVertex_',
+    (G_ + 'SPARStwo', 'queryVertex_'): 'checkQueryStateInitialization() re-creates the query vertex whenever the graph is empty, which it is after clear()',
+}
+
+
+def _ancestors(F, rec):
+    anc, work = set(), [rec]
+    while work:
+        r = F.record(work.pop(), required=False)
+        for b in (r['bases'] if r else []):
+            if b not in anc:
+                anc.add(b)
+                work.append(b)
+    return anc
+
+
+def _class_closure(F, byrec, rec, anc, start):
+    seen = {}
+    work = [g for g in byrec.get(rec, []) if g.name.split('::')[-1] == start and (start != 'clear' or not g.params)]
+    while work:
+        g = work.pop()
+        if g.key in seen:
+            continue
+        seen[g.key] = g
+        for c in g.walk():
+            cal = c.get('callee')
+            for h in F.by_name.get(cal, []) if cal else []:
+                if h.body and (h.record == rec or h.record in anc or (h.d.get('lambda_of') or '').startswith(rec + '::')):
+                    work.append(h)
+        # lambdas defined inside g run on its behalf
+        for h in byrec.get(None, []):
+            pass
+    return list(seen.values())
+
+
+def _field_writes(fs):
+    """{field of *this: [(kind, function, node, fn)]} over the given functions"""
+    out = {}
+    for g in fs:
+        for x in g.walk():
+            t = kind = None
+            if x['k'] in ('BinaryOperator', 'CompoundAssignOperator') and (x.get('op') or '').endswith('=') and x.get('op') not in ('==', '!=', '<=', '>='):
+                t, kind = g.strip(x['ch'][0]), '='
+            elif x['k'] == 'CXXOperatorCallExpr' and x.get('oop') in ('=', '+=', '-=', '++', '--') and x['ch']:
+                t, kind = g.strip(x['ch'][0]), '='
+            elif x['k'] == 'UnaryOperator' and x.get('op') in ('++', '--'):
+                t, kind = g.strip(x['ch'][0]), '++'
+            elif x['k'] == 'CXXMemberCallExpr' and (x.get('callee') or '').split('::')[-1] in MUTATORS and x['ch']:
+                t, kind = g.strip(x['ch'][0]), (x.get('callee') or '').split('::')[-1]
+                if t is not None and t['k'] == 'CXXOperatorCallExpr' and t.get('oop') == '->':
+                    t = g.strip(t['ch'][0])
+            if t is not None and t['k'] == 'MemberExpr' and t.get('dk') == 'Field' and t['ch'] and \
+                    (g.strip(t['ch'][0]) or {}).get('k') == 'CXXThisExpr':
+                out.setdefault(t['name'], []).append((kind, g.name.split('::')[-1], x, g))
+    return out
+
+
+def r03l(rep, F):
+    rep.rule('R03l', 'clear() forgets what solve() learned: for every planner class with its own clear() and solve(), every data member of '
+                     '*this that the solve() closure (solve and the member functions / lambdas of the class and its bases it calls) '
+                     'assigns, increments or mutates as a container is (a) also written by the clear() closure, or (b) a derived '
+                     'configuration value (also written by setup() or a set* method), or (c) assigned by a top-level statement of solve() '
+                     'itself on every call; anything else is a frozen exception with the reason read from the code')
+    planners = F.subclasses(B + 'Planner')
+    byrec = {}
+    for f in F.functions:
+        if f.body:
+            byrec.setdefault(f.record, []).append(f)
+    n = 0
+    for rec in sorted(planners):
+        fs = byrec.get(rec, [])
+        if not any(g.name.endswith('::clear') and not g.params for g in fs) or not any(g.name.endswith('::solve') for g in fs):
+            continue
+        anc = _ancestors(F, rec)
+        W = _field_writes(_class_closure(F, byrec, rec, anc, 'solve'))
+        C = _field_writes(_class_closure(F, byrec, rec, anc, 'clear'))
+        S = _field_writes(_class_closure(F, byrec, rec, anc, 'setup'))
+        setters = _field_writes([g for g in fs if g.name.split('::')[-1].startswith('set') and g.name.split('::')[-1] != 'setup'])
+        for fld, ws in sorted(W.items()):
+            role = 'per-query:' + fld
+            if fld in C:
+                n += 1
+                rep.add('R03l', rec + '::clear', role, True, C[fld][0][3].where(C[fld][0][2]), 'reset by ' + C[fld][0][1] + '()')
+                continue
+            if fld in S or fld in setters:
+                continue
+            top = False
+            for (kind, fn, x, g) in ws:
+                if fn == 'solve' and g.record == rec and kind in ('=', 'clear'):
+                    par = [a for a in g.ancestors(x['id']) if a['k'] in ('IfStmt', 'ForStmt', 'WhileStmt', 'DoStmt', 'CXXForRangeStmt', 'SwitchStmt',
+                                                                            'ConditionalOperator', 'LambdaExpr')]
+                    if not par:
+                        top = True
+            if top:
+                n += 1
+                rep.add('R03l', rec + '::clear', role, True, ws[0][3].where(ws[0][2]), 're-initialised unconditionally by every solve()')
+                continue
+            if (rec, fld) in PERQUERY_EXCEPTIONS:
+                rep.undecided('R03l', rec + '::clear', role, PERQUERY_EXCEPTIONS[(rec, fld)])
+                continue
+            n += 1
+            rep.add('R03l', rec + '::clear', role, False, ws[0][3].where(ws[0][2]),
+                    '%s is written during solve() (%s in %s) and neither reset by clear() nor re-initialised at the start of solve(): the next '
+                    'query after clear() starts from what the previous one left there' % (fld, ws[0][0], ws[0][1]))
+    rep.require_count('R03l', 'members written by solve() and accounted for', n, 240)
+
+
 def run(rep):
     units = P.geometric_units() + P.control_units() + P.multilevel_units() + P.base_units()
     F = facts.load_units(units)
@@ -591,6 +734,7 @@ def run(rep):
     r03h(rep, F)
     r03i(rep, F)
     r03j(rep, F, planner_fns)
+    r03l(rep, F)
     # the RRTConnect side-flag invariant decides which branch is reported as the approximate solution of an interrupted solve
     from rules import c01
     c01.r01k(rep, F)
